@@ -36,6 +36,10 @@ CLAIMED = {
    text="Seeded search over 1-2 real nodes (automatic import on, off, or one of each) plus an 'other application' that sets and deletes raw documents through its own storage handle, gateway writers and readers on the same documents, and single-document resync (with and without sequence regeneration), all interleaved at storage-operation granularity (feed import vs on-demand import on read and on write vs a gateway write retrying on CAS), with feed redelivery / de-duplication and forced CAS mismatches. Oracle: in bucket order (observed at the storage seams of the gateway nodes and of the external writer) a gateway write never replaces an external body that was not imported first; at quiescence the gateway serves the body of the latest mutation, the latest external write has become a new revision (not the revision that was current before it), history stays a single chain, #revisions = #acknowledged gateway writes + #imports with #imports <= #external writes and 0 when nobody wrote externally (import counter 0 too); re-delivering feed events and re-reading every document changes no revision, sequence, CAS or the sequence counter.",
    note="Revision counting is skipped for documents that were deleted externally (re-creating a tombstoned document externally starts a new document). The storage seam restores two Couchbase Server answers that rosmar does not give (delete of a tombstone = not found; insert over a live document = key exists).",
    technique="deterministic simulation with an external-writer actor; bucket-order log oracle + idempotence (redelivery) check", design="4/C09"),
+ "C11": dict(level="fault_enumeration",
+   text="For each of 16 operation kinds (document create, update, update adding / dropping an attachment, delete, sync-function rejection, conflict rejection, pushed branch, purge; user create / update / delete, role create / delete, session create / delete) on seeded prior states (document live with attachment and grants, tombstoned; conflicted in the thorough tier) the storage operations the request issues are indexed in issue order and ONE RUN IS MADE FOR EVERY (index, fault kind): generic error, CAS mismatch, timeout with the write applied, timeout with the write lost; the thorough tier adds every pair of indices and a node crash before / after every index; seeded random multi-fault runs come on top. After each run the API's answer is compared with a read-back of all documents (revisions, body, channels, grants, attachment data), principals (admin grants, effective access, password) and sessions through a second un-faulted node without revision cache: failure => state identical to the pre-state; success => the operation's effect is visible (incl. the grantees' effective access and attachment bytes); unknown outcome (timeout, crash) => complete old or complete new state; and every sequence reserved is carried or published unused (ledger from the storage seam).",
+   note="The space is complete relative to the listed operation kinds and prior states; indices beyond a request's last storage operation are listed but not applicable (counted separately in the evidence). Orphan attachment data documents left by a failed write are not visible through any API and are not judged.",
+   technique="systematic single/pair fault and crash-point enumeration at the storage seam inside the deterministic simulator; read-back differential oracle", design="4/C11"),
 }
 
 NA = {
